@@ -2,6 +2,7 @@ import BqVerif.Proofs.QasmRegs
 import BqVerif.Proofs.QasmExprBasic
 import BqVerif.Proofs.QasmPrec
 import BqVerif.Proofs.QasmStrip
+import BqVerif.Proofs.QasmAccept
 import BqVerif.Proofs.QasmSubst
 import BqVerif.Proofs.QasmInline
 import BqVerif.Proofs.QasmPrintParse
@@ -128,19 +129,31 @@ theorem C17_reader_text {V : Type} (A : Arith V) (ts : List (ETok V)) (q : QE V)
   have hf := flatten_larkParse A ts q h
   exact ⟨hf, by simp [evalQ, hf]⟩
 
-/-- Consequence: an expression written with the minimal parentheses of the grammar and
-needing none (`stripG` leaves its rendering unchanged) is read as itself, provided Lark
-accepts it (acceptance is checked on every generated expression by the run). -/
-theorem C17_reader_paren_free_partial {V : Type} (A : Arith V) (e : PE V) (q : QE V)
-    (hfree : stripG (render 0 e) = render 0 e) (h : larkParse (render 0 e) = some q) :
-    pyParse (flatten A q) = some e ∧ evalQ A q = e.eval A := by
+/-- **The reader accepts every well-formed expression**: Lark's parse (greedy `usub`, shift
+preferred) succeeds on the rendering of every tree (no spliced values), in particular on every
+operand/operator string `W false ts` (`larkParse_W`). -/
+theorem C17_reader_accepts {V : Type} (e : PE V) (he : e.noVal = true) :
+    ∃ q, larkParse (render 0 e) = some q :=
+  larkParse_render e he
+
+/- Full strength (FALSE of the code): for every tree `e`, the reader's value of its rendering
+   is `e.eval` (wrong as soon as the rendering needs a grouping parenthesis,
+   `C17_expr_paren_witness`). -/
+/-- An expression whose minimal rendering needs no grouping parentheses (`stripG` leaves it
+unchanged) is accepted and read as itself — unconditionally. -/
+theorem C17_reader_paren_free_partial {V : Type} (A : Arith V) (e : PE V)
+    (he : e.noVal = true) (hfree : stripG (render 0 e) = render 0 e) :
+    ∃ q, larkParse (render 0 e) = some q ∧ pyParse (flatten A q) = some e ∧
+      evalQ A q = e.eval A := by
+  obtain ⟨q, h⟩ := larkParse_render e he
   have hf := flatten_larkParse A _ q h
   rw [hfree] at hf
   have hp : pyParse (flatten A q) = some e := by rw [hf]; exact pyParse_render e
-  exact ⟨hp, by simp [evalQ, hp]⟩
+  exact ⟨q, h, hp, by simp [evalQ, hp]⟩
 
 example : stripG (render 0 (PE.bin .add (.neg (.lit "1")) (.pow (.lit "2") (.neg (.lit "3")))
-    : PE Int)) = render 0 (PE.bin .add (.neg (.lit "1")) (.pow (.lit "2") (.neg (.lit "3")))) := by
+    : PE Int)) = render 0 (PE.bin .add (.neg (.lit "1")) (.pow (.lit "2") (.neg (.lit "3")))) ∧
+    (PE.bin .add (.neg (.lit "1")) (.pow (.lit "2") (.neg (.lit "3"))) : PE Int).noVal = true := by
   decide
 
 /- Full strength (FALSE of the code): for every Lark tree `q`, `evalQ A q = specEvalQ A q`
